@@ -231,8 +231,18 @@ def case_map(kind):
     return _CASE[kind]
 
 
+_CI = {}
+
+
 def case_image(kind, s):
     """ISet of all code points occurring in f(c) for c in s (f = upper / lower)"""
+    k = (kind, s.iv)
+    if k not in _CI:
+        _CI[k] = _case_image(kind, s)
+    return _CI[k]
+
+
+def _case_image(kind, s):
     runs, multi = case_map(kind)
     stable = cls('upstable' if kind == 'upper' else 'lowstable')
     out = list(s.inter(stable).iv)
